@@ -21,6 +21,7 @@ import (
 	"verif/gv"
 	"verif/known"
 	"verif/pbt"
+	"verif/rt"
 	"verif/sess"
 	"verif/val"
 )
@@ -459,6 +460,32 @@ func TestLongBindings(t *testing.T) {
 				}
 				pbt.CaseExact(true, "long-binding:"+kind)
 			}
+		}
+	}
+}
+
+// every (operand position x operand construct) pair as the body of a saved function: the function must compute
+// the same after a reload (its saved text is the compact printed form)
+func TestPairBodies(t *testing.T) {
+	idx := 0
+	for _, ctx := range rt.Contexts() {
+		for _, ch := range rt.Children() {
+			idx++
+			if !pbt.Mine(idx) {
+				continue
+			}
+			body := []*gen.Node{ctx.Wrap(ch.Make())}
+			if cl := known.Classes(body); cl[known.RightAssocParens] {
+				pbt.Excluded(known.RightAssocParens)
+				continue
+			}
+			fn := gen.Func("pb", []string{"a", "b", "c", "d", "y", "z"}, false, body...)
+			c := Case{Defs: []string{"f = q => q * 2", gen.Print([]*gen.Node{fn}, gen.PrintOptions{})},
+				Calls: []string{"println(catch(pb(10, 1, 2, 3, 4, 5)))", "println(catch(pb([1, 2, 3], 1, 0, 2, 0, 1)))", "println(catch(pb({\"k\": 1}, \"k\", true, false, 1, 2)))"}}
+			if _, err := check(c); err != nil {
+				pbt.Fail(t, "state", c, "function body with %s in %s: %v", ch.Name, ctx.Name, err)
+			}
+			pbt.CaseExact(true, "pair-body")
 		}
 	}
 }
